@@ -51,6 +51,9 @@ def _do_chunked_reproject(
 
     dst_shape = ba.with_yx(ba.shape, dst_gbox.shape)
     dst = np.zeros(dst_shape, dtype=dtype)
+    if dst_nodata is None and src_nodata is None and dst.dtype.kind == "f":
+        # same default as `rio_reproject` and `resolve_fill_value`
+        dst_nodata = np.nan
 
     for src_roi in ba.planes_yx():
         src = ba.extract(src_nodata, dtype=dtype, casting=casting, roi=src_roi)
